@@ -309,9 +309,29 @@ def rule_unq(S):
     ok_rets = {}
     destroyed = {}
 
+    clear_sites = {}
+    # with create/delete serialised (R-ATOM) the entry cannot change between the lookup and the remove: where the root
+    # is read and whether the unlinked entry is reset no longer matter
+    serialised = facts.__dict__.get('_c13_serialised', False)
+
     def step(ctx, n, st):
         fs = R.track_assign(ds, n, st, facts)
+        if is_call(n, cq='yakushima::tree_instance::load_root_ptr') and root_var(ds, call_recv(ds, n)) in get_out:
+            onok0 = any((R.facts_get(fs, v) or '') == 'in:' + OK for v in rm_vars)
+            return R.facts_set(fs, '#rootload', 'after' if onok0 else 'before')
+        if is_call(n, cq='yakushima::tree_instance::store_root_ptr') and root_var(ds, call_recv(ds, n)) in get_out:
+            a0 = call_args(ds, n)
+            if a0 and R.const_of(ds, a0[0]) == 'null':
+                return R.facts_set(fs, '#cleared', 'Y')
         if n['k'] == 'CXXDeleteExpr' or is_call(n, cq='yakushima::base_node::destroy'):
+            fs = R.facts_set(fs, '#destroyed', 'Y')
+            if R.facts_get(fs, '#rootload') == 'before' and not serialised:
+                e0 = destroyed.setdefault(short_loc(n), {'ok': True, 'loc': short_loc(n), 'path': None, 'why': ''})
+                e0['ok'] = False
+                e0['why'] = 'destroys a root that was read before the catalogue remove: if the name was deleted and ' \
+                            're-created in between, the remove unlinks the new storage while the root of the old one ' \
+                            '(already destroyed by the other deleter) is destroyed again'
+                e0['path'] = ctx.witness()
             tgt = ds.ch(n)[0] if n['k'] == 'CXXDeleteExpr' else call_recv(ds, n)
             rv = root_var(ds, tgt)
             ini = R.var_decl_init(ds, rv) if rv else None
@@ -330,6 +350,11 @@ def rule_unq(S):
                 e['why'] = 'destroys the tree although the catalogue remove did not return OK'
                 e['path'] = ctx.witness()
         if n['k'] == 'ReturnStmt' and R.ret_const(ds, n, fs) == OK:
+            if R.facts_get(fs, '#destroyed') == 'Y':
+                c = clear_sites.setdefault(short_loc(n), {'ok': True, 'path': None})
+                if R.facts_get(fs, '#cleared') != 'Y' and not serialised:
+                    c['ok'] = False
+                    c['path'] = c['path'] or ctx.witness()
             onok = any((R.facts_get(fs, v) or '') == 'in:' + OK for v in rm_vars)
             e = ok_rets.setdefault(short_loc(n), {'ok': True, 'loc': short_loc(n), 'path': None})
             if not onok:
@@ -351,6 +376,12 @@ def rule_unq(S):
     for loc, e in sorted(destroyed.items()):
         S.ob('R-UNQ', ds.qname, 'destroys the dropped tree', e['ok'], e['why'] or
              'destroys the tree looked up under the name, on the OK edge of the remove', loc=loc, path=e['path'])
+    for loc, c in sorted(clear_sites.items()):
+        S.ob('R-UNQ', ds.qname, 'root pointer of the unlinked entry cleared (return at %s)' % loc, c['ok'],
+             ('store_root_ptr(nullptr) follows the destruction' if not serialised else
+              'create / delete are serialised: no other deleter can hold the unlinked entry') if c['ok'] else
+             'the unlinked entry keeps the pointer to the destroyed root: a deleter that looked the same entry up '
+             'before it was unlinked destroys that root again', loc=loc, path=c['path'])
     S.ob('R-UNQ', ds.qname, 'dropped tree is destroyed', bool(destroyed),
          'the dropped tree is released' if destroyed else 'delete_storage does not destroy the dropped tree', loc=ds.loc)
 
@@ -411,10 +442,72 @@ def rule_unq(S):
                  loc=short_loc(n))
 
 
+def rule_atom(S, rule='R-ATOM'):
+    """delete_storage looks the entry up and removes the name in two steps; they must see the same entry (finding F11)."""
+    facts = S.facts()
+    S.rule(rule, 'storage::delete_storage: the catalogue lookup and the catalogue remove both lie in the scope of one '
+                 'lock guard (std::lock_guard / unique_lock / scoped_lock on a mutex M, constructed before the lookup, '
+                 'alive until after the remove), and storage::create_storage makes its catalogue insert under a guard '
+                 'on the same M; otherwise a delete + create of the same name between the two steps makes the remove '
+                 'unlink an entry that was not looked up (its tree is never released)')
+    GUARDS = ('std::lock_guard<', 'std::unique_lock<', 'std::scoped_lock<')
+
+    def guards_of(f):
+        out = []
+        for n in f.all_nodes():
+            if n['k'] == 'DeclStmt':
+                for v in n.get('vars', []):
+                    if any(v['type'].replace('const ', '').startswith(g) for g in GUARDS) and 'init' in v:
+                        m = None
+                        for x in f.walk(f.node(v['init'])):
+                            if x['k'] in ('DeclRefExpr', 'MemberExpr') and 'mutex' in (x.get('ty') or ''):
+                                m = x.get('id') or x.get('member') or x.get('name')
+                        out.append({'var': v['id'], 'mutex': m, 'loc': n.get('loc'), 'end': v.get('scope_end')})
+        return out
+
+    def lc(loc):
+        p_ = (loc or '').split(':')
+        try:
+            return (p_[0], int(p_[1]), int(p_[2]) if len(p_) > 2 else 0)
+        except (ValueError, IndexError):
+            return None
+
+    def covered(g, call):
+        a, b, c = lc(g['loc']), lc(g['end']), lc(call.get('loc'))
+        return a is not None and b is not None and c is not None and a[0] == b[0] == c[0] and a[1:] <= c[1:] <= b[1:]
+
+    ds = facts.one('yakushima::storage::delete_storage')
+    cs = facts.one('yakushima::storage::create_storage')
+    facts.__dict__['_c13_guards'] = (guards_of, covered)
+    lookups = [n for n in ds.all_nodes() if is_call(n, cq='yakushima::get') and
+               any(is_call(y, cq='yakushima::storage::get_storages') for a in call_args(ds, n)[:1] for y in ds.walk(a))]
+    removes = [n for n in ds.all_nodes() if is_call(n, cq='yakushima::remove') and
+               any(is_call(y, cq='yakushima::storage::get_storages') for a in call_args(ds, n)[1:2] for y in ds.walk(a))]
+    inserts = [n for n in cs.all_nodes() if is_call(n, cq='yakushima::put') and
+               any(is_call(y, cq='yakushima::storage::get_storages') for a in call_args(cs, n)[1:2] for y in cs.walk(a))]
+    S.require(rule, 'catalogue lookup / remove in delete_storage', min(len(lookups), len(removes)), 1)
+    S.require(rule, 'catalogue insert in create_storage', len(inserts), 1)
+    dg = [g for g in guards_of(ds) if all(covered(g, n) for n in lookups + removes)]
+    S.ob(rule, ds.qname, 'lookup and remove under one guard', bool(dg),
+         'both steps lie in the scope of a lock guard on %s' % (dg[0]['mutex'] if dg else '') if dg else
+         'the lookup and the remove of the name are two unserialised steps: another session can delete and re-create '
+         'the name in between, the remove then unlinks the new entry while the tree to destroy is taken from the old one',
+         loc=ds.loc)
+    mut = {g['mutex'] for g in dg}
+    cg = [g for g in guards_of(cs) if g['mutex'] in mut and all(covered(g, n) for n in inserts)]
+    facts.__dict__['_c13_serialised'] = bool(dg and cg)
+    S.ob(rule, cs.qname, 'catalogue insert under the same mutex', bool(cg) or not dg,
+         'create_storage inserts under a guard on the same mutex' if cg else
+         ('(no guarded delete_storage to pair with)' if not dg else
+          'create_storage does not take the mutex delete_storage holds: a re-creation can still slip between the lookup '
+          'and the remove'), loc=cs.loc)
+
+
 def run(S):
     S.undecided = ['map semantics over sequences of DDL', 'ascending order of list_storages (inherits C03)',
                    'exactly-one-winner under concurrent create/create or delete/delete (inherits C01)']
     S.assumptions = ['the name-based API functions are the ones that call storage::find_storage and take no tree pointer']
     rule_stg(S)
     rule_iso(S)
+    rule_atom(S)
     rule_unq(S)
